@@ -89,6 +89,32 @@ def with_marker(pr, where, rng):
         if not cands:
             return None
         rng.choice(cands)["ext"] = True
+    elif where == "imported-deep":
+        # the marker stands in a file the entry file does NOT import itself: app -> main -> lib (seed C17-g)
+        q = with_marker(pr, "imported", rng)
+        if q is None:
+            return None
+        return wrap_chain(q)
+    return p
+
+
+def wrap_chain(pr, app="app", top="App"):
+    """A new entry file that imports only the old main file and holds its top message: every other file of the
+    program is reached through two imports or more."""
+    p = dict(pr)
+    files = dict(pr["files"])
+    old_main = pr["main"]
+    member = [d["name"] for d in files[old_main] if d["d"] == "proto"][-1]
+    files[app] = [{"d": "proto", "name": app}, {"d": "import", "file": old_main, "as": None},
+                  {"d": "message", "name": top, "ext": False,
+                   "body": [{"d": "field", "name": "t", "num": 1, "t": gen.tref([member, pr["top"]])}]}]
+    p["files"] = files
+    p["order"] = list(pr["order"]) + [app]
+    p["main"] = app
+    p["top"] = top
+    p["nbits"] = None
+    p.pop("rtype", None)
+    p.pop("_texts", None)
     return p
 
 
@@ -124,7 +150,7 @@ def main(tier, replay=None):
             if len(message_paths(pr)) < 3 or len(pr["files"]) < 2 and len(schemas) % 2 == 0:
                 continue
             schemas.append(("none", pr))
-            for where in ("main-message", "nested-message", "array", "imported"):
+            for where in ("main-message", "nested-message", "array", "imported", "imported-deep"):
                 q = with_marker(pr, where, rng)
                 if q is not None:
                     schemas.append((where, q))
@@ -222,8 +248,8 @@ def main(tier, replay=None):
         case = {"args": m["args"], "marker": m["where"], "schema": {n: render.render_file(ds) for n, ds in m["pr"]["files"].items()},
                 "event": tr["obs"][0], "stderr": m["stderr"][:500], "seed": seed}
         rep.decide(case, "%s [%s]: %s" % (" ".join(m["args"]), m["where"], v["why"]), [])
-    rep.cov["rule"] = ("schemas (none / one extensible marker on a main-file message, a nested message, an array, or in "
-                       "an imported file) x {c, go, py} x {-O} x {-F absent, empty, one name, two names, nested name, "
+    rep.cov["rule"] = ("schemas (none / one extensible marker on a main-file message, a nested message, an array, in "
+                       "an imported file, or in a file reached only through a chain of two imports) x {c, go, py} x {-O} x {-F absent, empty, one name, two names, nested name, "
                        "unknown name} x --endian; each run's exit status, output files, set of messages with "
                        "encoder/decoder, function text and declaration list (vs the run without -F) is decided by TLC; "
                        "distinct_nontrivial counts distinct (marker place, language, -O, |F|, endian) combinations")
